@@ -1,21 +1,20 @@
 #!/usr/bin/env python3
-"""tools/kani_one.py <package> <harness> [extra kani args] : run one harness with regular output, print the tail."""
-import sys, os, subprocess, time
+"""tools/kani_one.py <package> <harness> [extra kani args] : run one harness with regular output into $OUT (default /tmp/kani_one.out)."""
+import sys, os, subprocess, time, re
 sys.path.insert(0, os.path.join(os.path.dirname(os.path.abspath(__file__)), '..', 'lib'))
 import kani
 pkg, h = sys.argv[1], sys.argv[2]
+outp = os.environ.get('OUT', '/tmp/kani_one.out')
 env = dict(os.environ, CARGO_NET_OFFLINE='true', CARGO_TARGET_DIR=os.path.join(kani.CACHE, 'kani-target-' + os.environ.get('KANI_SLOT', 'main')))
 with kani.Scratch() as sc:
     t0 = time.time()
-    p = subprocess.run(['cargo', 'kani', '-p', pkg, '-Z', 'function-contracts', '-Z', 'stubbing', '--harness', h] + sys.argv[3:], cwd=sc.repo, env=env, capture_output=True, text=True, timeout=int(os.environ.get('TIMEOUT', '3600')))
-    out = p.stdout + p.stderr
-    lines = [l for l in out.split('\n') if 'Status: SUCCESS' not in l]
-    # drop the long list of successful checks
-    keep = []
-    for i, l in enumerate(out.split('\n')):
-        keep.append(l)
-    txt = '\n'.join(keep)
-    import re
-    txt = re.sub(r'Check \d+: [^\n]*\n\t - Status: SUCCESS\n\t - Description: [^\n]*\n\t - Location: [^\n]*\n\n', '', txt)
-    print(txt[-int(os.environ.get('TAIL', '5000')):])
-    print('wall %.1f' % (time.time() - t0))
+    with open(outp, 'w') as f:
+        p = subprocess.Popen(['cargo', 'kani', '-p', pkg, '-Z', 'function-contracts', '-Z', 'stubbing', '--harness', h] + sys.argv[3:], cwd=sc.repo, env=env, stdout=f, stderr=subprocess.STDOUT)
+        try:
+            p.wait(timeout=int(os.environ.get('TIMEOUT', '3600')))
+        except subprocess.TimeoutExpired:
+            subprocess.run(['pkill', '-P', str(p.pid)])
+            p.kill()
+            subprocess.run(['pkill', '-f', h + '.out'])
+            print('TIMEOUT')
+    print('wall %.1f -> %s' % (time.time() - t0, outp))
